@@ -104,8 +104,9 @@ def _quiet():
 class _Sut:
     """Wrap calls into pyYeti: an exception on an in-domain input is a violation."""
 
-    def __init__(self, where):
+    def __init__(self, where, **ctx):
         self.where = where
+        self.ctx = ctx
 
     def __enter__(self):
         return self
@@ -114,7 +115,7 @@ class _Sut:
         if et is None or issubclass(et, (Violation, HarnessError)):
             return False
         if issubclass(et, Exception):
-            raise Violation("sut_exception", self.where, exception=f"{et.__name__}: {str(ev)[:300]}") from ev
+            raise Violation("sut_exception", self.where, exception=f"{et.__name__}: {str(ev)[:300]}", **self.ctx) from ev
         return False
 
 
@@ -181,7 +182,9 @@ def ref_frf_apply_uf(sol, uf, nrb):
 
 
 def draw_modal(ch, rng, nmax=6):
-    """A small modal model: (n, nrb, rfmodes, m, b, k) with block structure."""
+    """A small modal model: (n, nrb, rfmodes, m, b, k) with block structure.
+    The structure is drawn through `ch`; `revalue(rng)` gives another model of
+    the same structure with fresh numbers (another event's system modes)."""
     nrb = ch.weighted([3, 2, 2], "nrb")
     nel = ch.weighted([1, 3, 3, 2], "nel")
     nrf = ch.weighted([4, 2, 1], "nrf")
@@ -198,36 +201,43 @@ def draw_modal(ch, rng, nmax=6):
     full_k = ch.flip(1, 3, "full_k")
     full_b = ch.flip(1, 3, "full_b")
     mkind = ch.weighted([2, 2, 1], "mkind")  # None, vector, full
-    w = rng.uniform(5.0, 60.0, n)
-    w[:nrb] = 0.0
-    kd = w**2
-    bd = 2 * 0.02 * w
-    md = rng.uniform(0.5, 2.0, n) if mkind else np.ones(n)
+    desc = dict(n=n, nrb=nrb, nel=nel, nrf=nrf, full_k=full_k, full_b=full_b, mkind=mkind, rf_mask=rfmodes is not None and rfmodes.dtype == bool)
 
-    def block_full(diag, lo, hi, amt):
-        A = np.diag(diag).astype(float)
-        sz = hi - lo
-        if sz > 1:
-            q = rng.standard_normal((sz, sz)) * amt
-            s = np.sqrt(np.abs(np.outer(diag[lo:hi], diag[lo:hi])))
-            A[lo:hi, lo:hi] += (q + q.T) / 2 * s
-        return A
+    def values(rng):
+        w = rng.uniform(5.0, 60.0, n)
+        w[:nrb] = 0.0
+        kd = w**2
+        bd = 2 * 0.02 * w
+        md = rng.uniform(0.5, 2.0, n) if mkind else np.ones(n)
 
-    e0, e1 = nrb, nrb + nel
-    k = kd
-    if full_k:
-        k = block_full(kd, e0, e1, 0.1)
-        if nrf > 1:
-            k[e1:, e1:] = block_full(kd, e1, n, 0.1)[e1:, e1:]
-    b = bd
-    if full_b:
-        b = block_full(bd, e0, e1, 0.2)
-    m = None
-    if mkind == 1:
-        m = md
-    elif mkind == 2:
-        m = block_full(md, e0, e1, 0.1)
-    return SimpleNamespace(n=n, nrb=nrb, nel=nel, nrf=nrf, rfmodes=rfmodes, m=m, b=b, k=k, desc=dict(n=n, nrb=nrb, nel=nel, nrf=nrf, full_k=full_k, full_b=full_b, mkind=mkind, rf_mask=rfmodes is not None and rfmodes.dtype == bool))
+        def block_full(diag, lo, hi, amt):
+            A = np.diag(diag).astype(float)
+            sz = hi - lo
+            if sz > 1:
+                q = rng.standard_normal((sz, sz)) * amt
+                s_ = np.sqrt(np.abs(np.outer(diag[lo:hi], diag[lo:hi])))
+                A[lo:hi, lo:hi] += (q + q.T) / 2 * s_
+            return A
+
+        e0, e1 = nrb, nrb + nel
+        k = kd
+        if full_k:
+            k = block_full(kd, e0, e1, 0.1)
+            if nrf > 1:
+                k[e1:, e1:] = block_full(kd, e1, n, 0.1)[e1:, e1:]
+        b = bd
+        if full_b:
+            b = block_full(bd, e0, e1, 0.2)
+        m = None
+        if mkind == 1:
+            m = md
+        elif mkind == 2:
+            m = block_full(md, e0, e1, 0.1)
+        mod = SimpleNamespace(n=n, nrb=nrb, nel=nel, nrf=nrf, rfmodes=rfmodes, m=m, b=b, k=k, desc=desc)
+        mod.revalue = values
+        return mod
+
+    return values(rng)
 
 
 def draw_uf(ch, tag="uf"):
@@ -252,38 +262,57 @@ def scenario_uf(ch, tr, st):
             x = x + 1j * rng.standard_normal(shape)
         return x
 
-    sol = SimpleNamespace(a=mk((mod.n, nt)), v=mk((mod.n, nt)), d=mk((mod.n, nt)))
-    if ch.flip(2, 3, "has_pg"):
-        sol.pg = mk((2, nt))
-    sol.t = np.arange(nt) * 0.01
-    pristine = copy.deepcopy(sol)
-    mats = copy.deepcopy((mod.m, mod.b, mod.k))
     ncalls = 1 + ch.draw(6, "ncalls")
     seq = [draw_uf(ch) for _ in range(ncalls)]
-    use_event = ch.flip(1, 4, "via_DR_Event")
-    st.rendered.update(scenario="uf_calls", modal=mod.desc, nt=nt, complex=cplx, ufs=[list(u) for u in seq], via_DR_Event=use_event)
-    tr.shape("uf", mod.n, mod.nrb, mod.nel, mod.nrf, mod.desc["full_k"], mod.desc["full_b"], mod.desc["mkind"], len(seq), use_event)
-    tr.ev("ufseq", seq, sol.a, sol.v, sol.d)
+    use_event = ch.flip(1, 3, "via_DR_Event")
+    # one DR_Event lives through several solutions (load cases / events), possibly
+    # with different system matrices of the same structure
+    ncycles = 1 + ch.weighted([3, 2, 1], "uf_cycles")
+    revalue = ncycles > 1 and ch.flip(1, 2, "uf_model_varies")
+    has_pg = ch.flip(2, 3, "has_pg")
+    st.rendered.update(scenario="uf_calls", modal=mod.desc, nt=nt, complex=cplx, ufs=[list(u) for u in seq], via_DR_Event=use_event, cycles=ncycles, model_varies=revalue)
+    tr.shape("uf", mod.n, mod.nrb, mod.nel, mod.nrf, mod.desc["full_k"], mod.desc["full_b"], mod.desc["mkind"], len(seq), use_event, ncycles, revalue)
     if len(set(seq)) < len(seq):
         st.fault("cache_reuse_repeat_uf")
     if ncalls >= 3:
         st.fault("cache_reuse")
-    st.nontrivial = ncalls >= 2
-    st.steps = ncalls
+    if ncycles > 1:
+        st.fault("uf_several_solutions")
+    if revalue:
+        st.fault("model_varies_between_events")
+    st.nontrivial = ncalls >= 2 or ncycles >= 2
+    st.steps = ncalls * ncycles
     st.distinct["histories"] = tr.shape_digest() + str(seq)
-
-    outs = []
+    DR = None
     if use_event:
         DR = M.cla.DR_Event()
         DR.UF_reds = list(dict.fromkeys(seq))
-        with _Sut("DR_Event.apply_uf"):
-            so = DR.apply_uf(sol, mod.m, mod.b, mod.k, mod.nrb, mod.rfmodes)
-        outs = [(u, so[u]) for u in DR.UF_reds]
-    else:
-        save = {}
-        for i, u in enumerate(seq):
-            with _Sut(f"cla.apply_uf call {i}"):
-                outs.append((u, M.cla.apply_uf(sol, u, mod.m, mod.b, mod.k, mod.nrb, mod.rfmodes, save)))
+    mod0 = mod
+    for cyc in range(ncycles):
+        mod = mod0.revalue(rng) if (revalue and cyc > 0) else mod0
+        sol = SimpleNamespace(a=mk((mod.n, nt)), v=mk((mod.n, nt)), d=mk((mod.n, nt)))
+        if has_pg:
+            sol.pg = mk((2, nt))
+        sol.t = np.arange(nt) * 0.01
+        pristine = copy.deepcopy(sol)
+        mats = copy.deepcopy((mod.m, mod.b, mod.k))
+        tr.ev("ufseq", cyc, seq, sol.a, sol.v, sol.d)
+        outs = []
+        if use_event:
+            with _Sut("DR_Event.apply_uf", cycle=cyc):
+                so = DR.apply_uf(sol, mod.m, mod.b, mod.k, mod.nrb, mod.rfmodes)
+            outs = [(u, so[u]) for u in DR.UF_reds]
+        else:
+            save = {}
+            for i, u in enumerate(seq):
+                with _Sut(f"cla.apply_uf call {i}", cycle=cyc):
+                    outs.append((u, M.cla.apply_uf(sol, u, mod.m, mod.b, mod.k, mod.nrb, mod.rfmodes, save)))
+        _check_uf_outs(M, st, tr, mod, outs, pristine, mats, seq, cyc)
+    # the caller's solution is handed on to the next consumer: it must still be usable
+    st.probe("uf_sequences")
+
+
+def _check_uf_outs(M, st, tr, mod, outs, pristine, mats, seq, cyc):
     for i, (u, warm) in enumerate(outs):
         with _Sut("cla.apply_uf cold"):
             cold = M.cla.apply_uf(copy.deepcopy(pristine), u, *copy.deepcopy(mats), mod.nrb, mod.rfmodes, None)
@@ -293,25 +322,23 @@ def scenario_uf(ch, tr, st):
             if not hasattr(ref, f):
                 continue
             if not hasattr(warm, f):
-                raise Violation("uf_missing_field", f"apply_uf.{f}", call=i, uf=list(u))
+                raise Violation("uf_missing_field", f"apply_uf.{f}", call=i, cycle=cyc, uf=list(u))
             w = getattr(warm, f)
-            _need(_close(w, getattr(cold, f), 1e-12, sc), "uf_cache_dependent", f"apply_uf.{f}", call=i, uf=list(u), history=[list(x) for x in seq[: i + 1]])
+            _need(_close(w, getattr(cold, f), 1e-12, sc), "uf_cache_dependent", f"apply_uf.{f}", call=i, cycle=cyc, uf=list(u), history=[list(x) for x in seq[: i + 1]])
             tol = 1e-12 if f in ("a", "v", "pg") else 1e-9
-            _need(_close(w, getattr(ref, f), tol, sc), "uf_table_wrong", f"apply_uf.{f}", call=i, uf=list(u))
-        _need(_close(warm.d, warm.d_static + warm.d_dynamic, 1e-15, sc), "uf_d_not_sum", "apply_uf.d", call=i, uf=list(u))
+            _need(_close(w, getattr(ref, f), tol, sc), "uf_table_wrong", f"apply_uf.{f}", call=i, cycle=cyc, uf=list(u))
+        _need(_close(warm.d, warm.d_static + warm.d_dynamic, 1e-15, sc), "uf_d_not_sum", "apply_uf.d", call=i, cycle=cyc, uf=list(u))
         if tuple(u) == (1, 1, 1, 1):
             # unit factors: a, v unchanged (rf excepted), d of non-rb modes unchanged
             rfi = np.zeros(mod.n, bool)
             if mod.rfmodes is not None:
                 rfi[mod.rfmodes if mod.rfmodes.dtype != bool else np.flatnonzero(mod.rfmodes)] = True
             for f in ("a", "v"):
-                _need(_close(getattr(warm, f)[~rfi], getattr(pristine, f)[~rfi], 0.0, 1.0), "uf_unit_changes_solution", f"apply_uf.{f}", call=i)
+                _need(_close(getattr(warm, f)[~rfi], getattr(pristine, f)[~rfi], 0.0, 1.0), "uf_unit_changes_solution", f"apply_uf.{f}", call=i, cycle=cyc)
             nonrb = np.arange(mod.n) >= mod.nrb
-            _need(_close(warm.d[nonrb], pristine.d[nonrb], 1e-9, sc), "uf_unit_changes_solution", "apply_uf.d", call=i)
+            _need(_close(warm.d[nonrb], pristine.d[nonrb], 1e-9, sc), "uf_unit_changes_solution", "apply_uf.d", call=i, cycle=cyc)
             st.probe("unit_uf_checked")
         tr.ev("ufout", i, warm.a, warm.v, warm.d)
-    # the caller's solution is handed on to the next consumer: it must still be usable
-    st.probe("uf_sequences")
 
 
 # -------------------------------------------------------- scenario: extrema
@@ -551,7 +578,7 @@ DRFUNCS = [
     ("sol.v[:2]", "view_2", lambda V, s: s.v[:2]),
     ("sol.d", "view_n", lambda V, s: s.d),
 ]
-NPG = 2
+NPG = 3
 
 
 def _pv_forms(ch, rows, tag):
@@ -719,6 +746,7 @@ def scenario_campaign(ch, tr, st):
     h = [0.01, 0.002, 0.05][ch.draw(3, "h")]
     sr = 1.0 / h
     srsfrq = np.array([sr / 40, sr / 15, sr / 8, sr / 5])
+    model_varies = ch.flip(1, 2, "model_varies")  # events have their own system modes
 
     # configurations (DR_Event objects shared by several events)
     cfgs = {}
@@ -774,6 +802,7 @@ def scenario_campaign(ch, tr, st):
         ev.done = []  # list of (j, casename)
         ev.h = h
         ev.xfixed = None
+        ev.mod = mod.revalue(rng) if (model_varies and e > 0) else mod
         ev.peak_factor = 3.0
         ev.resp_time = None
         if ev.domain == "psd":
@@ -794,8 +823,8 @@ def scenario_campaign(ch, tr, st):
                 return M.ode.FreqDirect(m_, b_, k_, rb=rb_, rf=_rf)
 
             with _Sut("ode solver construction (psd event)"):
-                ev.fs = mkfs((mod.m, mod.b, mod.k))
-            ev.fs_ref = mkfs(copy.deepcopy((mod.m, mod.b, mod.k)))
+                ev.fs = mkfs((ev.mod.m, ev.mod.b, ev.mod.k))
+            ev.fs_ref = mkfs(copy.deepcopy((ev.mod.m, ev.mod.b, ev.mod.k)))
         ev.srsfrq_for = lambda cs, _f=srsfrq: _f[: cs.nfrq]
         ev.srs_all = srsfrq
         ev.R = {}  # casename -> {cat: response}
@@ -808,6 +837,8 @@ def scenario_campaign(ch, tr, st):
         st.fault("j_out_of_order")
     if len({e.cfg for e in events}) > 1:
         st.fault("label_mismatch")
+    if model_varies and len(events) > 1:
+        st.fault("model_varies_between_events")
     shared = {}
     for e in events:
         shared.setdefault(e.cfg, []).append(e)
@@ -930,6 +961,7 @@ class FakeClock:
 
 
 def op_recover_psd(M, ch, tr, st, rng, mod, ev):
+    mod = ev.mod
     k = len(ev.done)
     j = ev.jorder[k]
     case = f"{ev.name}c{k}"
@@ -943,6 +975,10 @@ def op_recover_psd(M, ch, tr, st, rng, mod, ev):
     nf = len(f)
     flat = ch.flip(1, 3, "flat_psd")
     forcepsd = np.ones((NPG, nf)) * rng.uniform(0.2, 2.0, (NPG, 1)) if flat else rng.uniform(0.1, 2.0, (NPG, nf))
+    if ch.flip(1, 3, "zero_force_row"):
+        # an all-zero force PSD (not trimmed by default: the solver warns and carries on)
+        forcepsd[ch.draw(NPG, "zero_row")] = 0.0
+        st.fault("zero_force_psd_row")
     t_frc = rng.standard_normal((mod.n, NPG))
     kw = dict(incrb=ev.incrb, rf_disp_only=ev.rf_disp_only)
     nas = {"nrb": mod.nrb}
@@ -987,6 +1023,7 @@ def op_recover_psd(M, ch, tr, st, rng, mod, ev):
 def op_recover(M, ch, tr, st, rng, mod, ev, h, nan_on, ties_on):
     if ev.domain == "psd":
         return op_recover_psd(M, ch, tr, st, rng, mod, ev)
+    mod = ev.mod
     k = len(ev.done)
     j = ev.jorder[k]
     case = f"{ev.name}c{k}"
@@ -1283,9 +1320,9 @@ def op_envelope(M, ch, tr, st, started, top, top_sig, ops):
             keys = [e.name for e in groups[g]]
             check_envelope(M, st, tree[g]["extreme"], keys, {e.name: [e] for e in groups[g]}, doappend, 1, "group", g)
         # stale entries must have been replaced, not accumulated
-    for k, v in tree.items():
-        if k == "extreme":
-            continue
+    # forming envelopes must leave the events' own tables alone
+    for e in order:
+        check_event(M, st, e, tr)
     return tree, sig
 
 
@@ -1533,6 +1570,6 @@ ASSUMPTIONS = [
     "sampling of histories: a clean batch is evidence, not proof",
 ]
 EXPECTED_FAULTS = [
-    "psd_domain", "clock_jump_backwards", "clock_jump_forwards", "external_maxmin", "mixed_abscissa", "nan_cells", "ties", "ties_quantised", "one_column_ext", "label_mismatch", "j_out_of_order", "interleaved_events", "view_drfunc",
+    "psd_domain", "clock_jump_backwards", "clock_jump_forwards", "external_maxmin", "mixed_abscissa", "model_varies_between_events", "zero_force_psd_row", "nan_cells", "ties", "ties_quantised", "one_column_ext", "label_mismatch", "j_out_of_order", "interleaved_events", "view_drfunc",
     "cache_reuse", "cache_reuse_repeat_uf", "stale_extreme_rebuild", "shared_DR_Event", "envelope_multi_event", "split_merge", "calc_ext",
 ]
